@@ -82,15 +82,39 @@ VARIANTS_THOROUGH = VARIANTS_QUICK + [("thread-j8", ["-j8", "--executor=thread"]
                                       ("thread-j3", ["-j3", "--executor=thread"])]
 
 
+SHAPES = ["plain", "builddir", "plain", "project"]
+
+
+def shape_project(proj, shape):
+    """The same generated project presented in another way: with a (fresh, per run) build directory, or through a
+    compilation database so that the executors take the FileSettings path instead of the plain file list."""
+    proj = dict(proj, shape=shape)
+    if shape == "project":
+        entries = [{"directory": ".", "file": f, "command": "cc -c %s" % ('"%s"' % f if " " in f else f)} for f in proj["sources"]]
+        proj["files"] = dict(proj["files"], **{"cc.json": json.dumps(entries)})
+        proj["sources"] = ["--project=cc.json"]
+    proj["desc"] = proj["desc"] + " shape=" + shape
+    return proj
+
+
 def run_project(proj, variants, seeds):
     root = runlayer.fresh_root(proj["name"])
     projgen.materialize(proj, root)
+    nbd = [0]
+
+    def shaped(opts):
+        if proj.get("shape") != "builddir":
+            return list(opts)
+        nbd[0] += 1
+        os.mkdir(os.path.join(root, "bd%d" % nbd[0]))      # every run gets an empty build directory (reuse is C18)
+        return list(opts) + ["--cppcheck-build-dir=bd%d" % nbd[0]]
+
     runs = []
-    ref = runlayer.run_variant(proj, root, proj["name"] + "/j1", ["-j1"])
+    ref = runlayer.run_variant(proj, root, proj["name"] + "/j1", shaped(["-j1"]))
     runs.append(("ref", ref))
     for vname, vopts in variants:
         for sd in seeds:
-            r = runlayer.run_variant(proj, root, "%s/%s/s%d" % (proj["name"], vname, sd), vopts,
+            r = runlayer.run_variant(proj, root, "%s/%s/s%d" % (proj["name"], vname, sd), shaped(vopts),
                                      env={"CPPCHECK_VERIF_SCHED": str(sd)})
             runs.append(("alt", r))
     runlayer.cleanup(root)
@@ -140,7 +164,7 @@ def main(tier, seed, replay=None):
     seeds = [seed, seed + 1] if tier == "quick" else [seed, seed + 1, seed + 2]
     all_runs = {}
     for i in range(nproj):
-        proj = projgen.gen_project(seed * 1000 + i)
+        proj = shape_project(projgen.gen_project(seed * 1000 + i), SHAPES[i % len(SHAPES)])
         all_runs[proj["name"]] = (proj, run_project(proj, variants, seeds))
     npairs, bad, tres = judge_projects(all_runs)
     # a rejection / difference is reported only if an immediate re-run of that project reproduces it
